@@ -322,7 +322,8 @@ def flushItems (p : Ph) : List Item := [.flushOpen p, .flushWrite p, .flushClose
 
 /-- `Saver.save(chunk, i)` as seen by the saver thread; `recheck = false` is the OLD protocol (D3: done futures
 dropped unchecked).  Inlined (forked) savers are not driven by `save_from` at all:
-`ParallelSourcePlugin.do_compute` saves inside the pool worker, nobody on the saver's side looks at the result (D35). -/
+`ParallelSourcePlugin.do_compute` saves inside the pool worker; its result is looked at only once, by `cleanup` before
+it closes the savers (`waitAll` of `saverProg`; before the D35 fix not at all). -/
 def chunkItems (v : Variant) (recheck : Bool) (i : Nat) (c : Chunk) : List Item :=
   match v with
   | .serial =>
@@ -356,11 +357,14 @@ def initItemsOld : List Item :=
 structure Proto where
   recheck : Bool := true
   atomicRemove : Bool := true
+  /-- `ParallelSourcePlugin.cleanup` waits for the pool tasks AND looks at their results: if one failed, the inlined
+  savers are closed inside that exception's context (D35 fix); `false` = before the fix (it only waited) -/
+  cleanupChecks : Bool := true
 deriving DecidableEq, Repr, Inhabited
 
 def saverProg (v : Variant) (pr : Proto) (cs : List Chunk) : List Item :=
   (if pr.atomicRemove then initItems else initItemsOld) ++ chunksItems v pr.recheck 0 cs
-    ++ (if pr.recheck && v == .executor then [.waitAll] else []) ++ closeItems
+    ++ (if (pr.recheck && v == .executor) || (pr.cleanupChecks && v == .forked) then [.waitAll] else []) ++ closeItems
 
 def handlerItems (h : HandlerSpec) : List Item :=
   chunksItems h.variant true h.extraStart h.extra ++ closeItems
@@ -510,7 +514,7 @@ def step (c : Cfg) : Act → Option Cfg
       | _ => some c.opFail
     | .finish :: rest =>
       -- inlined savers: the caller's outcome is decided by the mailbox readers, which re-raise the exception of
-      -- a failed `do_compute` future; nobody on the saver's side looks at it
+      -- a failed `do_compute` future (before the D35 fix nobody on the saver's side looked at it)
       some { c with prog := rest,
                     out := if c.handling || (c.spec.variant == .forked && anyFailed c.workers) then .raised else .success }
   | .savFail =>
